@@ -1,5 +1,5 @@
 import SnaxVerif.Props.C07
-import SnaxVerif.Lemmas.AccfgLinksHolds
+import SnaxVerif.Lemmas.AccfgLinksAnnot
 /-!
 # C07, second half — "Threading of state through control flow links each setup to the setup that really precedes it
 on every path", and "whatever the compiler assumes … is true", for the state-typed SSA values themselves.
@@ -53,6 +53,16 @@ in the woven program `weave p`, with `G` the position-based facts (`knownB` of t
 theorem weave_links_agree_partial (p : PBlock) (NoPreThreadedLoops : plainPB p = true) (hnd : nodupPB p = true)
     (a : AccId) : AgreeB a (tableOf (weave p)) [] (weave p) noFacts :=
   weave_agree p NoPreThreadedLoops hnd a
+
+/-- The same in the form of the correspondence check (`real_inference_at_points` vs `annotB`): when every launch follows
+its setup in straight-line code, the list — in pre-order over all setups and launches of the traced program, inserted
+empty setups included — of what `inferL` answers for the statement's state operand, tabulated over the accelerator's
+fields, IS the position-based annotation `annotB` of the traced program (for every large enough fuel). -/
+theorem weave_annot_agree_partial (fields : AccId → List Field) (p : PBlock) (NoPreThreadedLoops : plainPB p = true)
+    (hnd : nodupPB p = true) (hcur : allCurB (weave p) = true) :
+    ∃ N, ∀ m, N ≤ m → annotTabB fields (tableOf (weave p)) m (weave p) =
+      (annotB fields (eraseAll (weave p)) noFacts).map some :=
+  annotTabB_agree fields (tableOf (weave p)) (weave p) noFacts (fun a => weave_agree p NoPreThreadedLoops hnd a) hcur
 
 /-- the full statement: every program, also with pre-existing loop-carried state -/
 def weave_links_agree_statement : Prop :=
@@ -150,6 +160,7 @@ def demoP : PBlock :=
 
 example : nodupPB demoP = true := by decide
 example : plainPB demoP = true := by decide
+example : allCurB (weave demoP) = true := by decide
 example : wfB (eraseP demoP) = true := by decide
 /-- the links the pass creates: the stale link of the first loop setup is replaced by the block argument (id 2) whose
 init is the empty setup (id 1) inserted after the call; loop result 5; the conditional yields (result 7, then 6,
